@@ -4,7 +4,8 @@
 // construction routes (pool.go, routes.go), and hashes made from arrays that repeat keys (fromarray.go).
 // D: the laws checked directly on the implementation on all pairs and triples of the pool, hash lookup and
 // Unique against the equality-based reference, every Hash against its own entries, every container against
-// the values derived from it (direct.go).  M: the observed hash keys, the observed Equals answers of all
+// the values derived from it (direct.go), Equals and ToKey of pairs in every state of the lazily cached inferred
+// types (caches.go).  M: the observed answers in those cache states with the observed content of the caches, the observed hash keys, the observed Equals answers of all
 // ordered pairs, lookups and Unique results, and the entries / lookups / Equals answers of the hashes made
 // from arrays (pre-built key index) as Gallina terms for coq/Corr/CorrC07.v.
 package main
@@ -25,6 +26,7 @@ func main() {
 	res.Rule = "a pair of pool values is non-trivial when the two values are built from different descriptions and are equal or of the same " +
 		"top-level kind (so that the comparison goes into the structure); a lookup is non-trivial when the hash holds a key equal to the probe; " +
 		"a Unique input is non-trivial when it holds two equal values; a pool hash made by a construction route other than WrapHash is a non-trivial own-entries case; " +
+		"a cache-state pair is non-trivial when the two values are equal and built from different descriptions (the same entries in another insertion order); " +
 		"a from-array case is non-trivial when the array repeats a key, each of its probes that is found is a non-trivial lookup; distinct = distinct description texts"
 	pcore.Do(func(c px.Context) {
 		if cfg.Replay != "" {
